@@ -241,10 +241,11 @@ func (e *Executor) getTaskFunc(
 
 		// Process a cache hit if:
 		// - The target result was loaded (HasCacheHit)
+		// - The output checks pass (outputCheckErr == nil)
 		// - The target is not tainted (!isTainted)
 		// - The target does not have no-cache set (!target.SkipsCache)
 		// - The cache is enabled (enableCache)
-		if target.HasCacheHit && !isTainted && !target.SkipsCache() && e.enableCache {
+		if target.HasCacheHit && outputCheckErr == nil && !isTainted && !target.SkipsCache() && e.enableCache {
 			if e.loadOutputsMode == config.LoadOutputsMinimal {
 				// Important: Set the output hash so that descendants can compute their change hashes
 				target.OutputHash = targetResult.OutputHash
